@@ -8,6 +8,7 @@ Outcome classes: equal / rejected (exception) / accepted-but-different or accept
 """
 import hashlib
 import itertools
+import json
 
 import numpy as np
 from hypothesis import strategies as st
@@ -59,6 +60,14 @@ def _setup(model, name, spec):
     vals = spec["values"]
     shape = spec["shape"]
     named = spec.get("named")
+    if spec.get("grown") and len(shape) == 2 and shape[1] >= 2 and not named:
+        # the matrix first exists with one column less, is used once (its size gets queried), and is then set up with its final shape
+        el.setup_matrix([shape[0], shape[1] - 1], [list(r[:-1]) for r in vals])
+        probe = model.converter(name + "_probe")
+        probe.equation = el.arr_rank(1) + el.arr_sum()
+        probe(0.0)
+        tmp = model.converter(name + "_probe2")
+        tmp.equation = el * 2.0
     if len(shape) == 1:
         if named:
             nm = _names(shape[0], named)
@@ -245,7 +254,7 @@ def _nontrivial(case, info):
 def _body(ctx):
     def body(case):
         info, vs = check_case(case)
-        labels = ["form:" + case["form"], "outcome:" + str(info["outcome"]).split(":")[0]]
+        labels = ["form:" + case["form"], "outcome:" + str(info["outcome"]).split(":")[0]] + (["operand-grown-after-first-use"] if case["A"].get("grown") else [])
         if case.get("mismatch"):
             labels.append("mismatching-operands")
         if str(info["outcome"]).startswith("rejected") and not case.get("mismatch"):
@@ -319,6 +328,14 @@ def combos(tier):
         for sas in ("number", "element"):
             out.append({"form": "dot", "A": {"kind": "constant", "shape": sh, "named": None}, "B": {"scalar": 2.0, "as": sas}})
             out.append({"form": "dot", "A": {"kind": "constant", "shape": sh, "named": None}, "B": {"scalar": 2.0, "as": sas}, "order": "BA"})
+    grown = []
+    for c in out:
+        if len(c["A"]["shape"]) == 2 and c["A"]["shape"][1] >= 2 and not c["A"].get("named") and c["A"]["kind"] in ("constant", "converter") \
+                and (c["form"] in ("agg", "dot") or (c["form"] == "elem" and c.get("op") in ("+", "*"))):
+            g = json.loads(json.dumps(c))
+            g["A"]["grown"] = True
+            grown.append(g)
+    out += grown
     for i, c in enumerate(out):
         c["A"]["values"] = _vals(c["A"]["shape"], ("A", i))
         if "B" in c and "shape" in c["B"]:
